@@ -7,18 +7,19 @@ use crate::report::{Meta, Report};
 use crate::rng::Rng;
 use crate::util::{catch, par_items};
 use crate::{obj, Ctx};
-use emulator_2a_lib::machine::Bus;
+use crate::real;
+use emulator_2a_lib::machine::{Bus, State};
 
 pub fn meta() -> Meta {
     Meta {
         id: "C10",
-        rule: "single operations: all 256 addresses x 256 values written to a randomised bus, then all 256 addresses read back and compared with the map model (exhaustive); all 65 536 ordered pairs of write addresses; plus seeded random read/write/set-input/board-input sequences checked after every operation. distinct_nontrivial counts distinct (operation kind, address) pairs exercised",
+        rule: "single operations: all 256 addresses x 256 values written to a randomised bus, then all 256 addresses read back and compared with the map model (exhaustive); all 65 536 ordered pairs of write addresses; plus seeded random read/write/set-input/board-input sequences checked after every operation; plus reads issued by the running CPU: every read-only instruction form (LD immediate/absolute/register-indirect, CMP and BITT with a memory operand, POP) x every byte value 0-255 as the datum read x every source (RAM cell, input registers FC-FF, operand byte) x interrupt-status states (none, key request recorded with the enable bit clear, request latched with the enable bit set and IE clear): the whole bus (RAM, registers, MICR, MISR, board) must be equal before and after the instruction. distinct_nontrivial counts distinct (operation kind, address) pairs exercised",
         exhaustive: true,
         assumptions: vec![
             "the map model only constrains what C10 states: RAM 00-EF, inputs FC-FF, outputs FE/FF, F9 (MICR write / MISR read), F0/F1 writes, F0/F1/F3 reads",
             "MICR is compared on its six defined bits",
         ],
-        floors: vec![("single_ops", 65_536), ("pair_ops", 65_536), ("seq_ops", 100_000), ("reads_checked", 16_000_000)],
+        floors: vec![("single_ops", 65_536), ("pair_ops", 65_536), ("seq_ops", 100_000), ("reads_checked", 16_000_000), ("program_reads", 20_000), ("program_reads_with_status_set", 13_000)],
     }
 }
 
@@ -207,6 +208,97 @@ fn run_seq(prefix: &[Op], ops: &[Op], full_every: usize, rep: &mut Report) -> Op
     None
 }
 
+/// Reads issued by the running CPU: a read-only instruction must leave the whole bus as it was,
+/// whatever byte it reads and whatever the interrupt status is. `form` 0..=6, `src` 0..=4
+/// (RAM cell 0x80, FC..FF), `status` 0..=2.
+fn program_read(form: u8, src: u8, status: u8, v: u8) -> Result<(), (String, String)> {
+    let addr = if src == 0 { 0x80 } else { 0xFB + src };
+    let mut m = real::blank_machine();
+    // NOP, the instruction under test, three NOPs, STOP
+    let ins: Vec<u8> = match form {
+        0 => vec![0xFB, v, 0x10],       // LD R0, v (the datum is the operand byte)
+        1 => vec![0xFF, addr, 0x10],    // LD R0, (addr)
+        2 => vec![0xF5, 0x12],          // LD R2, (R1)
+        3 => vec![0xFF, addr, 0x20],    // CMP R0, (addr)
+        4 => vec![0xFF, addr, 0x30],    // BITT R0, (addr)
+        5 => vec![0x14],                // POP R0 (SP points below the cell)
+        _ => vec![0xF9, 0x11],          // LD R1, (R1+)
+    };
+    let mut prog = vec![0x02];
+    prog.extend_from_slice(&ins);
+    prog.extend_from_slice(&[0x02, 0x02, 0x02, 0x01]);
+    {
+        let bus = m.raw_mut().bus_mut();
+        bus.memory_mut()[..prog.len()].copy_from_slice(&prog);
+        if src == 0 || form == 5 {
+            bus.memory_mut()[0x80] = v;
+        }
+        match src {
+            1 => bus.input_fc(v),
+            2 => bus.input_fd(v),
+            3 => bus.input_fe(v),
+            4 => bus.input_ff(v),
+            _ => {}
+        }
+        if status == 2 {
+            bus.write(0xF9, 0x01);
+        }
+    }
+    real::set_reg(&mut m, 1, addr);
+    real::set_reg(&mut m, 5, 0x7F);
+    let what = |s: &str| format!("form {} reading {:#04x} from {:#04x}, interrupt status case {}: {}", form, v, if form == 0 { 2 } else if form == 5 { 0x80 } else { addr }, status, s);
+    real::to_first_boundary(&mut m);
+    real::to_next_boundary(&mut m); // the leading NOP
+    if status > 0 {
+        m.trigger_key_interrupt();
+    }
+    let before = m.bus().clone();
+    for k in 0..3 {
+        if m.state() != State::Running {
+            return Err(("C10:program-read-halts".into(), what("the machine stopped")));
+        }
+        real::to_next_boundary(&mut m);
+        if *m.bus() != before {
+            let (a, b) = (before.verif_snapshot(), m.bus().verif_snapshot());
+            let sig = if a.misr != b.misr {
+                "C10:program-read-changes-status"
+            } else if before.memory()[..] != m.bus().memory()[..] {
+                "C10:program-read-changes-ram"
+            } else {
+                "C10:program-read-side-effect"
+            };
+            return Err((sig.into(), what(&format!("after {} instruction(s) the bus differs (MISR {:#04x} -> {:#04x}, MICR {:#04x} -> {:#04x})", k + 1, a.misr, b.misr, a.micr, b.micr))));
+        }
+    }
+    Ok(())
+}
+
+fn program_reads(rep: &mut Report, forms: &[u8]) {
+    for &form in forms {
+        for src in 0..5u8 {
+            if (form == 0 || form == 5) && src != 0 {
+                continue;
+            }
+            for status in 0..3u8 {
+                for v in 0..=255u8 {
+                    rep.evaluations += 1;
+                    match catch(|| program_read(form, src, status, v)) {
+                        Ok(Ok(())) => {
+                            rep.inc("program_reads");
+                            if status > 0 {
+                                rep.inc("program_reads_with_status_set");
+                            }
+                            rep.class(&[4, form as u64, src as u64, status as u64]);
+                        }
+                        Ok(Err((sig, what))) => rep.violate(&sig, what, obj![("program_read", J::Arr(vec![J::from(form), J::from(src), J::from(status), J::from(v)]))]),
+                        Err(p) => rep.violate(&format!("C10:panic:{}", p.site()), format!("panic: {}", p.msg), obj![("program_read", J::Arr(vec![J::from(form), J::from(src), J::from(status), J::from(v)]))]),
+                    }
+                }
+            }
+        }
+    }
+}
+
 fn random_prefix(rng: &mut Rng) -> Vec<Op> {
     // a randomised starting bus: some RAM, inputs, outputs, MICR
     let mut ops = vec![];
@@ -230,9 +322,11 @@ pub fn run(ctx: &Ctx) -> Report {
     let seed = ctx.seed;
     // items: 256 (single ops per address) + 256 (pairs per first address) + seq_count/100 batches
     let batches = (seq_count + 99) / 100;
-    par_items(ctx.threads, 512 + batches, seed, move |i, s, rep| {
+    par_items(ctx.threads, 512 + 7 + batches, seed, move |i, s, rep| {
         let mut rng = Rng::new(s);
-        if i < 256 {
+        if i >= 512 + batches {
+            program_reads(rep, &[(i - 512 - batches) as u8]);
+        } else if i < 256 {
             let a = i as u8;
             let prefix = random_prefix(&mut rng);
             for v in 0..=255u8 {
@@ -285,8 +379,17 @@ pub fn run(ctx: &Ctx) -> Report {
 
 pub fn replay(_ctx: &Ctx, w: &J) -> Report {
     let mut rep = Report::new();
-    let ops = ops_from_json(w.get("ops").unwrap_or(&J::Null));
     rep.evaluations = 1;
+    if let Some(a) = w.get("program_read").and_then(|a| a.as_arr()) {
+        let g = |i: usize| a.get(i).and_then(|v| v.as_i64()).unwrap_or(0) as u8;
+        match catch(|| program_read(g(0), g(1), g(2), g(3))) {
+            Ok(Ok(())) => {}
+            Ok(Err((sig, what))) => rep.violate(&sig, what, w.clone()),
+            Err(p) => rep.violate(&format!("C10:panic:{}", p.site()), format!("panic: {}", p.msg), w.clone()),
+        }
+        return rep;
+    }
+    let ops = ops_from_json(w.get("ops").unwrap_or(&J::Null));
     if let Some(r) = run_seq(&[], &ops, 1, &mut rep) {
         report_violation(&mut rep, &[], &ops, r);
     }
